@@ -7,7 +7,7 @@
 //! edit an imported Sass partial — and the script is run again into an empty OUT_DIR.
 //!
 //! * static oracle (`stale-after-edit`): if the result changed (other files, other bytes, other lines)
-//!   the edited path must be covered — itself or an ancestor directory — by a `cargo:rerun-if-changed`
+//!   something must have changed at (or under) a path of a `cargo:rerun-if-changed`
 //!   line of the last run cargo would have executed.  This is `C17Rerun.change_triggers_rerun` evaluated
 //!   on the implementation.
 //! * cargo oracle (`cargo-did-not-rerun`, option `--cargo <n>`): the same scenario inside a real cargo
@@ -134,6 +134,32 @@ fn apply_edit(indir: &Path, e: &Edit, r: &mut Rng) {
 fn result_of(res: &RunResult, outdir: &Path) -> (BTreeMap<String, Vec<u8>>, Vec<String>) {
     let o = outdir.display().to_string();
     (res.after.iter().map(|(p, c)| (p.replacen(&o, "<OUT>", 1), c.clone())).collect(), res.stdout.clone())
+}
+
+/// what the operating system shows at a path, the way cargo looks at an announced path: the file's bytes, or
+/// the whole subtree of a directory (names, kinds, bytes), or nothing.  This is `t q` of `C17Rerun`.
+fn fingerprint(p: &Path) -> String {
+    fn h(b: &[u8]) -> u64 {
+        b.iter().fold(0xcbf29ce484222325u64, |a, x| (a ^ *x as u64).wrapping_mul(0x100000001b3))
+    }
+    match std::fs::metadata(p) {
+        Err(_) => "missing".into(),
+        Ok(m) if m.is_dir() => {
+            let mut v: Vec<String> = std::fs::read_dir(p)
+                .map(|rd| rd.flatten().map(|e| format!("{}={}", e.file_name().to_string_lossy(), fingerprint(&e.path()))).collect())
+                .unwrap_or_default();
+            v.sort();
+            format!("dir[{}]", v.join(";"))
+        }
+        Ok(_) => match std::fs::read(p) {
+            Ok(b) => format!("file:{}:{:x}", b.len(), h(&b)),
+            Err(_) => "unreadable".into(),
+        },
+    }
+}
+
+fn fingerprints(lines: &BTreeSet<String>) -> Vec<String> {
+    lines.iter().map(|l| fingerprint(Path::new(l))).collect()
 }
 
 fn lines_of(stdout: &[String]) -> BTreeSet<String> {
@@ -275,6 +301,7 @@ pub fn run(args: &crate::Args) {
         stats.hit("runs");
         let mut last = result_of(&res, &outdir); // result of the last run cargo executed
         let mut last_lines = lines_of(&res.stdout);
+        let mut last_prints = fingerprints(&last_lines); // the announced paths as that run left them
         let mut cargo_count = 0;
         if with_cargo {
             match cargo_build(&indir, &target) {
@@ -310,10 +337,8 @@ pub fn run(args: &crate::Args) {
             let now = result_of(&res, &outdir);
             let changed = now != last;
             let edited = indir.join(e.path()).display().to_string();
-            // cargo's rule: an announced path (or something under an announced directory) changed; removing a
-            // directory changes every path below it
-            let triggered = covered(&edited, &last_lines)
-                || (matches!(e, Edit::RemoveDir(_)) && last_lines.iter().any(|l| lexical(l).starts_with(&format!("{}/", lexical(&edited)))));
+            // cargo's rule: the file at an announced path, or something under an announced directory, changed
+            let triggered = fingerprints(&last_lines) != last_prints;
             stats.hit(if changed { "edits.result_changed" } else { "edits.result_same" });
             stats.hit(if triggered { "edits.covered" } else { "edits.not_covered" });
             distinct.insert(format!("{:?}{}{}", e, changed, triggered).len() as u64 * 7919 + si as u64);
@@ -322,7 +347,7 @@ pub fn run(args: &crate::Args) {
                     let diff: Vec<&String> = now.0.keys().chain(last.0.keys()).filter(|p| now.0.get(*p) != last.0.get(*p)).collect();
                     format!("files differ: {:?}", diff.iter().take(4).collect::<Vec<_>>())
                 };
-                fail("stale-after-edit", format!("edit {e:?}: a new run gives another result ({what}) but no cargo:rerun-if-changed line of the previous run covers {edited}; lines: {last_lines:?}"), &mut orc);
+                fail("stale-after-edit", format!("edit {e:?}: a new run gives another result ({what}) but nothing changed at (or under) any path announced by the previous run, so cargo would not run the build script again; edited: {edited}; announced: {last_lines:?}"), &mut orc);
             }
             if with_cargo && infra.is_none() {
                 match cargo_build(&indir, &target) {
@@ -342,6 +367,7 @@ pub fn run(args: &crate::Args) {
                         if reran {
                             last = now.clone();
                             last_lines = lines_of(&res.stdout);
+                            last_prints = fingerprints(&last_lines);
                         }
                     }
                     Err(er) => infra = Some(format!("cargo build after {e:?} failed: {er}")),
@@ -349,6 +375,7 @@ pub fn run(args: &crate::Args) {
             } else if triggered {
                 last = now;
                 last_lines = lines_of(&res.stdout);
+                last_prints = fingerprints(&last_lines);
             }
         }
         let _ = std::fs::remove_dir_all(&root);
